@@ -83,6 +83,27 @@ func genPayload(it WireItem) []byte {
 			b = append(b, 8, 0, 0, 0, 1, 0, 1, 'a')
 		}
 		return append(b, 5)
+	case "meta_objvals":
+		// onMetaData whose ecma array / object holds hostile property values
+		var f rtmpc.Amf
+		if n%2 == 0 {
+			f.Str("@setDataFrame")
+		}
+		f.Str("onMetaData")
+		b := f.B
+		if n%3 == 0 {
+			b = append(b, 3)
+		} else {
+			b = append(b, 8, 0, 0, 0, byte(n%4))
+		}
+		for i := 0; i < 1+n%3; i++ {
+			b = append(b, 0, 1, byte('p'+i))
+			b = append(b, amfHostileValue(n/3+i*5+int(it.Seed%23))...)
+		}
+		if n%5 != 0 {
+			b = append(b, 0, 0, 9)
+		}
+		return b
 	case "amf_bigcount":
 		return []byte{10, 0xff, 0xff, 0xff, 0xff, 0, 0x40, 0, 0, 0, 0, 0, 0, 0}
 	case "amf_longstr":
@@ -168,9 +189,49 @@ func genPayload(it WireItem) []byte {
 	return nil
 }
 
+// amfHostileValue: one AMF0 value whose declared count / length lies, or whose marker is rare.
+func amfHostileValue(n int) []byte {
+	vals := [][]byte{
+		{10, 0xff, 0xff, 0xff, 0xff, 0, 0x40, 0, 0, 0, 0, 0, 0, 0}, // strict array, 2^32-1 elements declared, one present
+		{10, 0x7f, 0xff, 0xff, 0xff},                               // strict array, huge count, nothing behind it
+		{10, 0, 0, 0, 2, 5},                                        // strict array, two declared, one present
+		{8, 0xff, 0xff, 0xff, 0xff, 0, 1, 'k', 5, 0, 0, 9},         // ecma array, huge count
+		{8, 0, 0, 0, 0, 0, 0, 9},                                   // empty ecma array
+		{12, 0xff, 0xff, 0xff, 0xff, 'x'},                          // long string, 4 GiB declared
+		{12, 0, 0, 0, 3, 'a', 'b', 'c'},                            // long string
+		{2, 0xff, 0xff, 'x'},                                       // string longer than the message
+		{11, 0x42, 0x77, 0, 0, 0, 0, 0, 0, 0, 0},                   // date
+		{11, 0, 0},                                                 // truncated date
+		{7, 0, 1},                                                  // reference
+		{15, 0xff, 0xff, 0xff, 0xff},                               // xml document, huge length
+		{16, 0, 1, 'c', 0, 1, 'a', 5, 0, 0, 9},                     // typed object
+		{13},                                                       // unsupported
+		{6},                                                        // undefined
+		{3, 0, 1, 'a', 3, 0, 1, 'b', 10, 0xff, 0xff, 0xff, 0xf0, 0, 0, 9}, // nested object holding a lying strict array, end marker missing
+		{0, 1, 2}, // truncated number
+		{1},       // truncated boolean
+		{9},       // object end where a value belongs
+		{4}, {14}, {17, 1}, {0xff},
+	}
+	return vals[n%len(vals)]
+}
+
 func cmdPayload(it WireItem) []byte {
 	var f rtmpc.Amf
 	f.Str(it.Name)
+	if it.Gen == "objvals" {
+		// a command object (connect's, or any other command's) whose property values are hostile
+		f.Num(1)
+		b := append(f.B, 3, 0, 3, 'a', 'p', 'p', 2, 0, 4, 'l', 'i', 'v', 'e')
+		for i := 0; i < 1+it.N%3; i++ {
+			b = append(b, 0, 1, byte('p'+i))
+			b = append(b, amfHostileValue(it.N/3+i*7+int(it.Seed%23))...)
+		}
+		if it.N%5 != 0 {
+			b = append(b, 0, 0, 9)
+		}
+		return b
+	}
 	switch it.Shape % 10 {
 	case 0: // normal-ish
 		f.Num(float64(it.N))
@@ -411,6 +472,9 @@ func genWireItems(r *sim.Rng, n int, asPublisher bool) []WireItem {
 			items = append(items, WireItem{Kind: "msg", Type: []int{1, 2, 3, 4, 5, 6}[r.Intn(6)], Csid: 2, Gen: "zeros", N: r.Intn(4)})
 		case 3:
 			items = append(items, WireItem{Kind: "cmd", Name: []string{"connect", "createStream", "publish", "play", "deleteStream", "FCPublish", "releaseStream", "getStreamLength", "pause", "xyz", "_result", "onStatus"}[r.Intn(12)], Shape: []int{0, 0, 0, r.Intn(10)}[r.Intn(4)], N: r.Intn(60), Msid: r.Intn(2), Type: []int{0, 0, 0, 17}[r.Intn(4)]})
+			if r.Bool(0.3) {
+				items[len(items)-1].Gen, items[len(items)-1].Seed = "objvals", seed
+			}
 		case 4: // media / data before or after the role is fixed
 			gen := []string{"video_hdr", "audio_hdr", "valid_video", "valid_audio", "seqhdr_trunc", "hevc_seqhdr_trunc", "nal_zero_len"}[r.Intn(7)]
 			t := 9
@@ -419,7 +483,7 @@ func genWireItems(r *sim.Rng, n int, asPublisher bool) []WireItem {
 			}
 			items = append(items, WireItem{Kind: "msg", Type: t, Csid: 6, Msid: 1, Ts: []uint32{0, 40, 0xFFFFFF, 0xFFFFFFFF, 0x7FFFFFFF, 100000}[r.Intn(6)], Gen: gen, N: r.Intn(60), Seed: seed, Shape: r.Intn(64)})
 		case 5: // metadata variants
-			items = append(items, WireItem{Kind: "msg", Type: []int{18, 15, 18}[r.Intn(3)], Csid: 5, Msid: 1, Gen: []string{"meta_bad", "meta_nest", "rand", "amf_bigcount", "amf_shortlong"}[r.Intn(5)], N: []int{0, 1, 3, 50, 3000}[r.Intn(5)], Seed: seed})
+			items = append(items, WireItem{Kind: "msg", Type: []int{18, 15, 18}[r.Intn(3)], Csid: 5, Msid: 1, Gen: []string{"meta_bad", "meta_nest", "rand", "amf_bigcount", "amf_shortlong", "meta_objvals", "meta_objvals"}[r.Intn(7)], N: []int{0, 1, 3, 50, 3000, 7, 11, 17}[r.Intn(8)], Seed: seed})
 		case 6: // deep nesting (up to the 16 MiB message limit occasionally)
 			depth := []int{100, 5000, 100000, 1000000, 3300000}[r.Intn(5)]
 			if quickTier && depth > 400000 {
